@@ -132,7 +132,7 @@ def lattice(thorough):
     C1r = {w: C1[w][:1] for w in WIDTHS}
     d1 = over(L)
     d1r = over(Lr)
-    sib2 = {w: (L[w] + C1[w]) if thorough else (Lr[w] + C1[w][1:2]) for w in WIDTHS}
+    sib2 = {w: (L[w] + C1[w]) if thorough else (Lr[w] + C1[w][1:3]) for w in WIDTHS}
     d2 = spine(d1r, sib2)
     # depth-2 trees that nest a conditional one level down, reduced siblings: the depth-2 children of depth 3
     sib2c = {w: Lr[w][:1] + (C1r[w] if thorough else []) for w in WIDTHS}
